@@ -686,12 +686,6 @@ fn classify(world: &World, code: i32, stdout: &str, stderr: &str, extra: &mut Ve
     if world.args.list && code == 0 {
         return match serde_json::from_str::<serde_json::Value>(stdout) {
             Ok(v) if v.is_object() => {
-                if !stderr.trim().is_empty() {
-                    extra.push(Mismatch {
-                        clause: "list-stderr-noise".into(),
-                        detail: format!("list wrote to stderr: {}", tail(stderr)),
-                    });
-                }
                 Obs::Listing(exec::listing_from_json(&v))
             }
             _ => Obs::Failed(format!("list exited 0 but stdout is not one JSON object: {}", tail(stdout))),
